@@ -402,7 +402,48 @@ Section StepO.
     { pose proof Gy as Gy0. destruct Gy.
       constructor; rewrite ?K2st, ?K2cy, ?K2fi, ?K2nv, ?K2of, ?K2ng, ?K2pa, ?K2co, ?K2or;
         rewrite ?K1cy, ?K1fi, ?K1nv, ?K1ng; auto; try (intros H; discriminate H).
-      all: admit. }
-    admit.
-  Admitted.
+      - clear; lia.
+      - intros H. pose proof (P_Mgm2y.g_done _ _ _ _ Gy0 H) as H'. rewrite Hk in H'. discriminate H'.
+      - intros _. apply (P_Mgm2y.g_nv2 _ _ _ _ Gy0). rewrite Hk. clear; lia.
+      - intros H. exfalso. clear - H. lia.
+      - intros _. rewrite (P_Mgm2y.g_ng3 _ _ _ _ Gy0) by (rewrite Hk; clear; lia). simpl.
+        destruct (nbr y); [congruence|simpl; clear; lia].
+      - intros H. exfalso. clear - H. lia.
+      - intros ->. destruct (Hcom eq_refl) as (Hg & Hp' & Hpg). split; [rewrite Hpg; exact Hg|].
+        exists p. split; [reflexivity|]. apply zmem_In in Hp'. apply (Hinb1 p Hp').
+      - intros _ ->. reflexivity. }
+    split; [|split; [apply evok_nil; rewrite K2fi, K1fi; reflexivity|split; [rewrite Po2; exact Po1|intros _; apply Hchg]]].
+    assert (Hnb : forall w, to_y2 w (map (fun t => (t, M2Gain gv)) (nbr y)) = if zmem w (nbr y) then [M2Gain gv] else []).
+    { intros w. apply (to_y2_map (fun t => (t, M2Gain gv))); [intros t; reflexivity|apply nbrs_nodup]. }
+    assert (Hans : forall w, to_y2 w (map (fun so : Z * list (Z * Z * Z) =>
+                     (fst so, if com && (fst so =? p) then M2Answer true vp (Some gain) else M2Answer false None None)) OFF) =
+                   if zmem w (map fst OFF) then [if com && (w =? p) then M2Answer true vp (Some gain) else M2Answer false None None]
+                   else []).
+    { intros w. apply (to_y2_off' _ (fun t => if com && (t =? p) then M2Answer true vp (Some gain) else M2Answer false None None));
+        [intros so; reflexivity|exact NdO]. }
+    apply (step_frame d stop rn S pd y s' x (l1 ++ l2) _ HI Ry Hact Hxy G2).
+    - intros x' Hx'. assert (Hx'y : x' <> y) by (intros ->; eapply nbrs_irrefl; eauto).
+      destruct (Hall x' Hx') as (Rx' & Cx' & Kx' & _).
+      apply (recv_to4 rn (updS S y s1) (updS S y s') (pd_step pd x y (l1 ++ l2) []) _ x' y com p);
+        rewrite ?updS_same, ?updS_other by assumption; try reflexivity; try assumption.
+      + apply pd_step_recv_indep. exact Hx'y.
+      + rewrite K1cy. exact Cx'.
+      + apply Kx'.
+      + apply (P1r x' Hx').
+    - intros w Hw. assert (Hwy : w <> y) by (intros ->; eapply nbrs_irrefl; eauto).
+      destruct (Hall w Hw) as (Rw & Cw & Kw & _).
+      apply (send_to4 rn (updS S y s1) (updS S y s') (pd_step pd x y (l1 ++ l2) []) _ y w (zmem w (map fst OFF)) com p vp gain gv);
+        rewrite ?updS_same, ?updS_other by assumption; try reflexivity; try assumption.
+      + rewrite !pd_step_send. simpl to_y2 at 1. rewrite app_nil_r. f_equal. rewrite to_y2_app, Hans, Hnb.
+        rewrite (proj2 (zmem_In w (nbr y)) Hw). reflexivity.
+      + intros H. destruct (Hinb1 w H) as [_ HE]. unfold expA. rewrite updS_other by assumption. exact HE.
+      + intros HE. unfold expA in HE. rewrite updS_other in HE by assumption. apply (Hinb2 w Hw HE).
+      + intros Hc. apply (Hcom Hc).
+      + intros Hc ->. apply zmem_In. apply (Hcom Hc).
+      + rewrite K1cy. exact Cw.
+      + apply (P1s w Hw).
+    - intros w Hw. rewrite to_y2_app, Hans, Hnb.
+      destruct (zmem w (map fst OFF)) eqn:E; [exfalso; apply Hw; apply (Hinb1 w E)|].
+      destruct (zmem w (nbr y)) eqn:E'; [exfalso; apply Hw; apply zmem_In; exact E'|reflexivity].
+  Qed.
 End StepO.
